@@ -12,9 +12,10 @@ namespace Lattigo.Copy
 inductive FieldClass
   | config         -- plain value, copied
   | configChanged  -- plain value NOT carried over (reset / recomputed): `level` of Ring.AtLevel, and
-                   -- `ScaleInvariant` of bgv.Evaluator.WithKey (a defect, see Props/C10)
+                   -- (`ScaleInvariant` of bgv.Evaluator.WithKey before fix C10-2)
   | sharedRO       -- same memory, never written after construction (parameters, rings, tables, keys)
-  | sharedCache    -- same memory, written lazily by either side (rlwe.Evaluator.automorphismIndex)
+  | sharedCache    -- same memory, written lazily by either side (rlwe.Evaluator.automorphismIndex BEFORE
+                   -- fix C10-4; no field of the current table has this class)
   | sharedScratch  -- same memory used as scratch / PRNG state: documented "cannot be used concurrently"
   | owned          -- freshly allocated, same content (scratch buffers, deep-copied data)
   | rng            -- freshly allocated, fresh randomness (new PRNG per shallow copy)
@@ -45,7 +46,7 @@ abbrev Row := List (String × FieldClass)
 
 /-- the table: `Type.Ctor` ↦ fields sorted by name (as printed by the harness) -/
 def table : List (String × Row) := [
-  ("rlwe.Evaluator.ShallowCopy", [("BasisExtender", .nested), ("Decomposer", .sharedRO), ("EvaluationKeySet", .sharedRO), ("EvaluatorBuffers", .owned), ("automorphismIndex", .sharedCache), ("params", .sharedRO)]),
+  ("rlwe.Evaluator.ShallowCopy", [("BasisExtender", .nested), ("Decomposer", .sharedRO), ("EvaluationKeySet", .sharedRO), ("EvaluatorBuffers", .owned), ("automorphismIndex", .sharedRO), ("params", .sharedRO)]),
   ("rlwe.Evaluator.WithKey", [("BasisExtender", .sharedScratch), ("Decomposer", .sharedRO), ("EvaluationKeySet", .replaced), ("EvaluatorBuffers", .sharedScratch), ("automorphismIndex", .replaced), ("params", .sharedRO)]),
   ("rlwe.Encryptor.ShallowCopy", [("basisextender", .nested), ("encKey", .sharedRO), ("encryptorBuffers", .owned), ("params", .sharedRO), ("prng", .rng), ("uniformSampler", .nested), ("xeSampler", .nested), ("xsSampler", .nested)]),
   ("rlwe.Encryptor.ShallowCopy[pk]", [("basisextender", .nested), ("encKey", .sharedRO), ("encryptorBuffers", .owned), ("params", .sharedRO), ("prng", .rng), ("uniformSampler", .nested), ("xeSampler", .nested), ("xsSampler", .nested)]),
@@ -56,11 +57,11 @@ def table : List (String × Row) := [
   ("rlwe.SecretKey.CopyNew", [("Value", .owned)]),
   ("rlwe.PublicKey.CopyNew", [("Value", .owned)]),
   ("rlwe.EvaluationKey.CopyNew", [("GadgetCiphertext", .owned), ("Seed", .absent)]),
-  ("rlwe.EvaluationKey.CopyNew[compressed]", [("GadgetCiphertext", .owned), ("Seed", .dropped)]),
+  ("rlwe.EvaluationKey.CopyNew[compressed]", [("GadgetCiphertext", .owned), ("Seed", .owned)]),
   ("rlwe.RelinearizationKey.CopyNew", [("EvaluationKey", .owned)]),
   ("rlwe.GaloisKey.CopyNew", [("EvaluationKey", .owned), ("GaloisElement", .config), ("NthRoot", .config)]),
-  ("rlwe.Ciphertext.CopyNew", [("Element", .nested)]),
-  ("rlwe.Plaintext.CopyNew", [("Element", .nested), ("Value", .owned)]),
+  ("rlwe.Ciphertext.CopyNew", [("Element", .owned)]),
+  ("rlwe.Plaintext.CopyNew", [("Element", .owned), ("Value", .owned)]),
   ("rlwe.MemEvaluationKeySet.ShallowCopy", [("GaloisKeys", .sharedRO), ("RelinearizationKey", .sharedRO)]),
   ("ring.BasisExtender.ShallowCopy", [("buffP", .owned), ("buffQ", .owned), ("constantsPtoQ", .sharedRO), ("constantsQtoP", .sharedRO), ("modDownConstantsPtoQ", .sharedRO), ("modDownConstantsQtoP", .sharedRO), ("ringP", .sharedRO), ("ringQ", .sharedRO)]),
   ("ring.Ring.AtLevel", [("ModulusAtLevel", .sharedRO), ("RescaleConstants", .sharedRO), ("SubRings", .sharedRO), ("level", .configChanged)]),
@@ -70,7 +71,7 @@ def table : List (String × Row) := [
   ("ring.TernarySampler.AtLevel", [("baseSampler", .nested), ("hw", .config), ("invDensity", .config), ("matrixProba", .config), ("matrixValues", .sharedRO), ("sample", .config)]),
   ("bgv.Evaluator.ShallowCopy", [("Encoder", .nested), ("Evaluator", .nested), ("ScaleInvariant", .config), ("evaluatorBase", .nested), ("evaluatorBuffers", .owned)]),
   ("bgv.Evaluator.ShallowCopy[ScaleInvariant]", [("Encoder", .nested), ("Evaluator", .nested), ("ScaleInvariant", .config), ("evaluatorBase", .nested), ("evaluatorBuffers", .owned)]),
-  ("bgv.Evaluator.WithKey", [("Encoder", .sharedScratch), ("Evaluator", .nested), ("ScaleInvariant", .configChanged), ("evaluatorBase", .sharedRO), ("evaluatorBuffers", .sharedScratch)]),
+  ("bgv.Evaluator.WithKey", [("Encoder", .sharedScratch), ("Evaluator", .nested), ("ScaleInvariant", .config), ("evaluatorBase", .sharedRO), ("evaluatorBuffers", .sharedScratch)]),
   ("bgv.Encoder.ShallowCopy", [("bufB", .absent), ("bufQ", .owned), ("bufT", .owned), ("indexMatrix", .sharedRO), ("parameters", .sharedRO), ("paramsQP", .sharedRO), ("qHalf", .sharedRO), ("tInvModQ", .sharedRO)]),
   ("ckks.Evaluator.ShallowCopy", [("Encoder", .nested), ("Evaluator", .nested), ("evaluatorBuffers", .owned)]),
   ("ckks.Evaluator.WithKey", [("Encoder", .sharedScratch), ("Evaluator", .nested), ("evaluatorBuffers", .sharedScratch)]),
@@ -89,7 +90,7 @@ def table : List (String × Row) := [
   ("mpbgv.MaskedTransformProtocol.ShallowCopy", [("e2s", .nested), ("s2e", .nested), ("tmpMask", .owned), ("tmpMaskPerm", .owned), ("tmpPt", .owned)]),
   ("mpckks.EncToShareProtocol.ShallowCopy", [("KeySwitchProtocol", .nested), ("buff", .owned), ("maskBigint", .owned), ("params", .sharedRO), ("zero", .sharedRO)]),
   ("mpckks.ShareToEncProtocol.ShallowCopy", [("KeySwitchProtocol", .nested), ("params", .sharedRO), ("ssBigint", .owned), ("tmp", .owned), ("zero", .sharedRO)]),
-  ("mpckks.MaskedLinearTransformationProtocol.ShallowCopy", [("defaultScale", .sharedRO), ("e2s", .nested), ("encoder", .nested), ("mask", .owned), ("noise", .dropped), ("prec", .config), ("s2e", .nested)])
+  ("mpckks.MaskedLinearTransformationProtocol.ShallowCopy", [("defaultScale", .sharedRO), ("e2s", .nested), ("encoder", .nested), ("mask", .owned), ("noise", .config), ("prec", .config), ("s2e", .nested)])
 ]
 
 def lookup (name : String) : Option Row := (table.find? (·.1 == name)).map (·.2)
